@@ -40,6 +40,10 @@ func (pats *IgnorePatterns) UnmarshalYAML(n *yaml.Node) error {
 		if p.Kind != yaml.ScalarNode {
 			return fmt.Errorf("yaml: each element of \"ignore\" must be a string of regular expression but %s node was found at line:%d,col:%d", nodeKindName(p.Kind), p.Line, p.Column)
 		}
+		if p.ShortTag() == "!!null" {
+			// An empty element like "- " has an empty value, which would be the regular expression matching any message
+			return fmt.Errorf("yaml: each element of \"ignore\" must be a string of regular expression but null was found at line:%d,col:%d", p.Line, p.Column)
+		}
 		r, err := regexp.Compile(p.Value)
 		if err != nil {
 			return fmt.Errorf("invalid regular expression %q in \"ignore\" at line%d,col:%d: %w", p.Value, n.Line, n.Column, err)
